@@ -371,6 +371,42 @@ func (a *agg) do(act string) error {
 		}
 		a.n.DS.CrashNow()
 		return a.do("C")
+	case strings.HasPrefix(act, "W"):
+		// a block is committed INSIDE an inclusion pass: the pass is held right before its k-th durable write (everything it
+		// wrote and read so far stands), the aggregator produces a block, the pass goes on. Both sequential orders are what
+		// the generated interleavings do; this is the overlap of the two loops of an aggregator.
+		k := 1
+		fmt.Sscanf(act[1:], "%d", &k)
+		var armed atomic.Bool
+		var cnt atomic.Int64
+		entered, release := make(chan struct{}, 1), make(chan struct{})
+		dsp := a.n.DS
+		dsp.BeforeWrite = func([]string) {
+			if armed.Load() && cnt.Add(1) == int64(k) && armed.CompareAndSwap(true, false) {
+				entered <- struct{}{}
+				<-release
+			}
+		}
+		armed.Store(true)
+		a.resume()
+		a.n.M.VerifSignal("daIncluder")
+		var perr error
+		select {
+		case <-entered:
+			perr = a.do("P")
+			a.o.r.Hit("block-committed-inside-an-inclusion-pass")
+		case <-time.After(2 * time.Second):
+			// the pass makes fewer than k durable writes
+			armed.Store(false)
+			a.o.r.Count("inclusion_pass_shorter_than_hold_point", 1)
+		}
+		close(release)
+		err := a.l.SignalBarrier("daIncluder", "daIncluder")
+		dsp.BeforeWrite = nil
+		if perr != nil {
+			return fmt.Errorf("a block produced while an inclusion pass stood before its durable write #%d failed: %w", k, perr)
+		}
+		return err
 	case strings.HasPrefix(act, "Y"):
 		// the k-th durable write of an inclusion pass fails and the process survives it; the loop reports the error (the
 		// node would shut down), the node is stopped cleanly and started again
@@ -813,6 +849,18 @@ func Run(r *vk.Run) {
 					addJob(job{c: c2})
 					id++
 				}
+			}
+		}
+	}
+	// crafted: a block is committed inside the inclusion pass that includes accepted blocks, before its k-th durable write;
+	// production has to go on afterwards
+	for _, shape := range [][]string{{"P", "P"}, {"P", "Pe", "P"}, {"Pe", "P"}} {
+		for _, initial := range []uint64{1, 3} {
+			for k := 1; k <= r.N(6, 10); k++ {
+				c := Case{ID: id, Node: "aggregator", Initial: initial}
+				c.Actions = append(append([]string{}, shape...), "S", "H", "D", fmt.Sprintf("W%d", k), "P", "H", "D", "I", "P", "Pe", "H", "D", "I")
+				addJob(job{c: c})
+				id++
 			}
 		}
 	}
